@@ -239,7 +239,7 @@ func val1(c *Ctx) {
 			problems = append(problems, fmt.Sprintf("%d stores to the receiver, expected 1", nStores))
 		}
 		// returns: nil or the parse error as is
-		for _, r := range ir.Returns(fn) {
+		for _, r := range ir.ReturnPoints(fn) {
 			for _, v := range ir.PhiValuesAt(r.Results[0], r.Block()) {
 				if ir.IsNilConst(v) {
 					continue
@@ -256,7 +256,7 @@ func val1(c *Ctx) {
 			if errV == nil {
 				problems = append(problems, "strconv error result is dropped")
 			} else {
-				for _, r := range ir.Returns(fn) {
+				for _, r := range ir.ReturnPoints(fn) {
 					if ir.IsNilConst(r.Results[0]) && !errIsNilAt(errV, r.Block()) {
 						problems = append(problems, fmt.Sprintf("return nil at %s is not dominated by err == nil", c.P.Pos(r.Pos())))
 					}
@@ -649,7 +649,7 @@ func val3(c *Ctx) {
 					"an empty variable is skipped before the value is applied", "an empty variable is not skipped before applying it")
 			}
 			// (d) first valid wins
-			for _, r := range ir.Returns(fn) {
+			for _, r := range ir.ReturnPoints(fn) {
 				b, isC := ir.ConstBool(r.Results[0])
 				if !isC {
 					c.Bad(key+":return", r.Pos(), "result is not a constant verdict")
@@ -681,7 +681,7 @@ func val3(c *Ctx) {
 					kind = "multi"
 				}
 				cont := false
-				for _, r := range ir.Returns(fn) {
+				for _, r := range ir.ReturnPoints(fn) {
 					if errIsNonNilAt(a.call, r.Block()) {
 						cont = false
 						c.Bad(key+":next-variable/"+kind, r.Pos(), "returns on a failed application instead of trying the next variable")
@@ -748,13 +748,13 @@ func val3multi(c *Ctx, fn *ssa.Function) {
 		"the target is not cleared before the environment elements are applied")
 	// error returned at once
 	okErr := false
-	for _, r := range ir.Returns(fn) {
+	for _, r := range ir.ReturnPoints(fn) {
 		if r.Results[0] == ssa.Value(set) && errIsNonNilAt(set, r.Block()) {
 			okErr = true
 		}
 	}
 	c.Check(okErr, key+":error", set.Pos(), "a Set error is returned at once", "a Set error is not returned as is")
-	for _, r := range ir.Returns(fn) {
+	for _, r := range ir.ReturnPoints(fn) {
 		if ir.IsNilConst(r.Results[0]) {
 			c.Check(!ir.InLoop(r.Block()), key+":all-elements", r.Pos(), "nil is returned only after the loop over all elements", "nil returned from inside the element loop")
 		}
@@ -799,8 +799,8 @@ func val4(c *Ctx) {
 		n++
 		key := Q(fn) + ":Clear-before-validation"
 		// failing exits: returns of a non-nil error, or (for bool verdict functions) return false / loop continue
-		var failing []*ssa.Return
-		for _, r := range ir.Returns(fn) {
+		var failing []*ir.RetPoint
+		for _, r := range ir.ReturnPoints(fn) {
 			if len(r.Results) == 1 {
 				if ir.IsNilConst(r.Results[0]) {
 					continue
@@ -814,7 +814,7 @@ func val4(c *Ctx) {
 		bad := ""
 		for _, cl := range clears {
 			for _, r := range failing {
-				reach := cl.Block() == r.Block() && ir.IndexIn(cl) < ir.IndexIn(r)
+				reach := cl.Block() == r.Block() && ir.IndexIn(cl) < ir.IndexIn(r.Anchor())
 				if !reach {
 					for _, s := range cl.Block().Succs {
 						if ir.Reach(s, nil, nil)[r.Block()] {
@@ -850,7 +850,7 @@ func val4(c *Ctx) {
 		}
 		key := Q(fn) + ":no-partial-content"
 		bad := ""
-		for _, r := range ir.Returns(fn) {
+		for _, r := range ir.ReturnPoints(fn) {
 			if len(r.Results) != 1 || ir.IsNilConst(r.Results[0]) {
 				continue
 			}
@@ -859,7 +859,7 @@ func val4(c *Ctx) {
 			}
 			for _, st := range sets {
 				// can r follow st?
-				follows := st.Block() == r.Block() && ir.IndexIn(st) < ir.IndexIn(r)
+				follows := st.Block() == r.Block() && ir.IndexIn(st) < ir.IndexIn(r.Anchor())
 				if !follows {
 					for _, sc := range st.Block().Succs {
 						if ir.Reach(sc, nil, nil)[r.Block()] {
@@ -908,7 +908,7 @@ func val5(c *Ctx) {
 		key := Q(fn)
 		var problems []string
 		sawInvoke := false
-		for _, r := range ir.Returns(fn) {
+		for _, r := range ir.ReturnPoints(fn) {
 			v := r.Results[0]
 			if b, isC := ir.ConstBool(v); isC {
 				if b {
@@ -947,7 +947,7 @@ func val5(c *Ctx) {
 		key := Q(fn)
 		var problems []string
 		sawEmpty, sawString := false, false
-		for _, r := range ir.Returns(fn) {
+		for _, r := range ir.ReturnPoints(fn) {
 			v := r.Results[0]
 			if s, isC := ir.ConstString(v); isC {
 				if s != "" {
@@ -1006,7 +1006,7 @@ func val6(c *Ctx) {
 			}
 		})
 		retOK := true
-		for _, r := range ir.Returns(fn) {
+		for _, r := range ir.ReturnPoints(fn) {
 			if stripConv(r.Results[0]) != ssa.Value(into) {
 				retOK = false
 			}
